@@ -290,3 +290,140 @@ def check_C36(tier):
                       dict(v, seed=seed, run_index=i))
     rep.extra["clock"] = "none"
     return rep.finish()
+
+
+# --------------------------------------------------------------------------
+# C39: build-configuration cells
+
+C39_CELLS = [
+    {"cell": "cplus", "cplus": True, "cflags": ()},
+    {"cell": "O2", "cflags": ("-O2",)},
+    {"cell": "O3_cplus", "cplus": True, "cflags": ("-O3",)},
+    {"cell": "no_pylong_internals", "cflags": ("-DCYTHON_USE_PYLONG_INTERNALS=0",)},
+    {"cell": "no_unicode_internals", "cflags": ("-DCYTHON_USE_UNICODE_INTERNALS=0",)},
+    {"cell": "no_vectorcall", "cflags": ("-DCYTHON_VECTORCALL=0",)},
+    {"cell": "avoid_borrowed_refs", "cflags": ("-DCYTHON_AVOID_BORROWED_REFS=1",)},
+    {"cell": "no_safe_macros", "cflags": ("-DCYTHON_ASSUME_SAFE_MACROS=0",)},
+    {"cell": "no_type_slots", "cflags": ("-DCYTHON_USE_TYPE_SLOTS=0",)},
+    {"cell": "limited_api", "cflags": ("-DCYTHON_LIMITED_API=1", "-DPy_LIMITED_API=0x030C0000")},
+    {"cell": "compress_strings_0", "cflags": ("-DCYTHON_COMPRESS_STRINGS=0",)},
+    {"cell": "compress_strings_1", "cflags": ("-DCYTHON_COMPRESS_STRINGS=1",)},
+    {"cell": "compress_strings_2", "cflags": ("-DCYTHON_COMPRESS_STRINGS=2",)},
+    {"cell": "no_binding", "cflags": (), "directives": {"binding": False}},
+    {"cell": "no_optimize", "cflags": (), "directives": {"optimize.use_switch": False, "optimize.unpack_method_calls": False}},
+    {"cell": "no_always_allow_keywords", "cflags": (), "directives": {"always_allow_keywords": False}},
+    {"cell": "no_auto_pickle", "cflags": (), "directives": {"auto_pickle": False}},
+    {"cell": "O2_no_pylong_no_vectorcall", "cflags": ("-O2", "-DCYTHON_USE_PYLONG_INTERNALS=0", "-DCYTHON_VECTORCALL=0")},
+]
+
+
+def _baseline_e3(v):
+    name = "wl39base_" + core.digest(v["src"])[:10]
+    so = build.build_ext(name, v["src"], ".py")
+    st, r = core.run_one_forked(e3_gen.run_single, {"name": name, "src": v["src"], "so": so}, v["history"], timeout=60)
+    return st == "crash" or (st == "ok" and r is not None)
+
+
+def _baseline_e4(v):
+    name = "wl22_39base_" + core.digest(v["src"])[:10]
+    so = build.build_ext(name, v["src"], ".py")
+    st, r = core.run_one_forked(e4_exc.run_single, {"name": name, "src": v["src"], "so": so, "nfuncs": 99}, v["func"], v["arg"], v["plan"], "C22", timeout=60)
+    return st == "crash" or (st == "ok" and r is not None)
+
+
+def check_C39(tier):
+    prop = "C39"
+    seed = core.env_seed()
+    core.stage()
+    from . import e5_refs, e6_loops
+    rep = core.Report(prop, "rider:E3-E6 under build-configuration cells", tier, seed)
+    rep.rule = ("the seeded workloads, histories and fault plans of E3 (generators), E4 (exception nests), E5 (refcount fault sweep) and E6 (loops) rebuilt in seeded cells of the "
+                "build matrix {C++, -O2/-O3, CYTHON_USE_PYLONG_INTERNALS=0, CYTHON_USE_UNICODE_INTERNALS=0, CYTHON_VECTORCALL=0, CYTHON_AVOID_BORROWED_REFS=1, "
+                "CYTHON_ASSUME_SAFE_MACROS=0, CYTHON_USE_TYPE_SLOTS=0, CYTHON_LIMITED_API, CYTHON_COMPRESS_STRINGS 0/1/2, binding, optimize.*, always_allow_keywords, auto_pickle, "
+                "one combined cell}; for a fixed run seed the trace must equal the CPython model's in every cell (hence be identical across cells). A divergence that also occurs in "
+                "the default build is the host property's business and only counted. quick: C++ + 2 seeded cells; thorough: all cells")
+    rep.components = {"real": ["generated C compiled under each configuration cell", "Cython/Utility/ModuleSetupCode.c feature macros", "g++ for the C++ cells"],
+                      "stub": ["as in the host engines"]}
+    rep.assumptions = ["rider: only the simulated workloads are compared across cells", "a workload that does not build in a cell (e.g. Limited API) is recorded and dropped, not alarmed"]
+    budget = core.env_budget(110 if tier == "quick" else 1800)
+    rng = core.rng_for(prop + ":cells", seed, 0)
+    if tier == "quick":
+        cells = [C39_CELLS[0]] + rng.sample(C39_CELLS[1:], 2)
+    else:
+        cells = list(C39_CELLS)
+    per_cell = budget / len(cells)
+    found = []
+    for c in cells:
+        tag = "c39" + c["cell"]
+        cflags, directives, cplus = tuple(c.get("cflags", ())), c.get("directives"), c.get("cplus", False)
+        rep.probes["cell:" + c["cell"]] = 1
+        t_end = time.time() + per_cell
+        # build with cplus needs the flag threaded through build_modules: done via a small wrapper around build.build_ext
+        orig = build.build_ext
+
+        def patched(name, src, ext=".py", directives=None, cflags=(), cplus=False, **kw):
+            return orig(name, src, ext, directives=directives, cflags=cflags, cplus=cplus or c.get("cplus", False), **kw)
+        build.build_ext = patched
+        try:
+            viol3, mods3 = e3_gen.explore(rep, seed, tier, tag, cflags=cflags, directives=directives, budget=per_cell * 0.3,
+                                          nruns=320 if tier == "quick" else 3200, nmods=2 if tier == "quick" else 4, prop=prop)
+            viol4, mods4, cfg4 = e4_exc.explore(rep, prop, seed, tier, tag, cflags=cflags, directives=directives, budget=per_cell * 0.3,
+                                                nmods=2 if tier == "quick" else 4, extra_cfg={"single_cap": 30, "nmulti": 20})
+            viol5, mods5, cfg5 = e5_refs.explore(rep, seed, tier, tag, cflags=cflags, budget=per_cell * 0.2, nmods=2 if tier == "quick" else 4, prop=prop)
+            try:
+                mods6 = e6_loops.build_mods([{"cell": tag, "cflags": cflags}], tag="")
+            except core.HarnessError as e:
+                mods6 = None
+                rep.probes["workload_modules_not_built"] = rep.probes.get("workload_modules_not_built", 0) + 1
+        finally:
+            build.build_ext = orig
+        if rep.harness_errors and all("no workload module could be built" in str(h) for h in rep.harness_errors):
+            rep.probes["cells_where_nothing_builds:" + c["cell"]] = 1
+            rep.harness_errors = []
+        for i, v in viol3:
+            found.append((c["cell"], "E3", i, v))
+        for i, v in viol4:
+            found.append((c["cell"], "E4", i, v))
+        for i, v in viol5:
+            found.append((c["cell"], "E5", i, v))
+        if mods6:
+            cfg6 = {"modules": mods6, "cases_per_run": 200, "case_timeout_s": 120}
+            for i, r in core.run_forked(e6_loops.one_run, prop, seed, range(160 if tier == "quick" else 1600), cfg6, deadline=time.time() + per_cell * 0.2):
+                if "crash" in r:
+                    found.append((c["cell"], "E6", i, {"klass": "crash", "detail": {"signal": r["crash"]}}))
+                elif "harness_error" in r:
+                    rep.harness_errors.append(r["harness_error"])
+                else:
+                    v = r.pop("violation", None)
+                    rep.absorb(r)
+                    if v:
+                        found.append((c["cell"], "E6", i, v))
+    rep.determinism = {"seeds": 0, "mismatches": 0, "note": "host engines' self-checks apply"}
+    seen = set()
+    for cell, eng, i, v in found:
+        key = (cell, eng, v["klass"])
+        if key in seen:
+            continue
+        seen.add(key)
+        also_baseline = None
+        try:
+            if eng == "E3" and v.get("history") is not None:
+                also_baseline = _baseline_e3(v)
+            elif eng == "E4" and v.get("func") is not None:
+                also_baseline = _baseline_e4(v)
+            elif eng == "E6" and v.get("case") is not None:
+                base = e6_loops.build_mods([{"cell": "default", "cflags": ()}], tag="c39base")
+                st, r = core.run_one_forked(e6_loops.run_single, base, "default", v["case"], timeout=60)
+                also_baseline = st == "crash" or (st == "ok" and r is not None)
+        except Exception as e:
+            rep.harness_errors.append("baseline comparison failed: %r" % (e,))
+            continue
+        if also_baseline:
+            rep.probes["divergences_also_in_default_build_(host_property)"] = rep.probes.get("divergences_also_in_default_build_(host_property)", 0) + 1
+            continue
+        v = dict(v, cell=cell, engine_host=eng, property=prop)
+        rep.violation("behaviour differs in build cell %s (%s workload, run %s): %s %s" % (cell, eng, i, v["klass"], json.dumps(v.get("detail"))[:200]),
+                      dict(v, seed=seed, run_index=i))
+    rep.extra["clock"] = "none"
+    rep.extra["cells_run"] = [c["cell"] for c in cells]
+    return rep.finish()
